@@ -32,6 +32,7 @@ func init() {
 	vpOnReset = func() {
 		vpFromOnly = 0
 		vpConcreteBase = false
+		vpCellAssume = nil
 	}
 }
 
@@ -89,7 +90,12 @@ var vpShapes = []vpShape{
 	{in: []uint64{2}},                                                              // 8 singleton other, self removed
 	{in: []uint64{1, 2}},                                                           // 9 two voters
 	{in: []uint64{1, 0x5000000000000000, 0xA000000000000000, 0xF000000000000000}},  // 10 ids spread over the uint64 range
+	{in: []uint64{2}, learners: []uint64{1}},                                       // 11 one other voter, self demoted to learner
+	{in: []uint64{1}, out: []uint64{1, 2, 3}},                                      // 12 joint, shrinking to the single voter self
 }
+
+// vpSnapShapes: how many of the shapes above the ConfState of a symbolic snapshot ranges over
+const vpSnapShapes = 11
 
 func vpSet(ids []uint64) map[uint64]struct{} {
 	if len(ids) == 0 {
